@@ -148,7 +148,7 @@ def run(ctx):
     cfgs = list(cfgs) + ["mixed:base"]
     # subscriptions: every delivered event is one execution of the root field's selection set on the event's
     # value (spec 6.2.3.2 ExecuteSubscriptionEvent); the runner splits a subscription into its events
-    sb = gensrv.build_matrix(ctx, "execsub", ["base"] if ctx.tier == "quick" else ["base", "follow_funcsyn_wl2"])
+    sb = gensrv.build_matrix(ctx, "execsub", ["base", "follow_funcsyn_wl2"])     # both flavours of the generated Exec
     for k, v in sb.items():
         built["execsub:" + k] = v
     cfgs = list(cfgs) + ["execsub:" + k for k in sb]
